@@ -15,6 +15,8 @@ import (
 
 func init() { families["conv"] = runConv }
 
+var prevGUIDBytes []byte
+
 func intsToBytes(l []any) []byte {
 	b := make([]byte, len(l))
 	for i, v := range l {
@@ -106,6 +108,25 @@ func runConv(sc M) {
 			if err != nil || l2.Owner != *g {
 				fail("ReadSignatureData owner differs from the GUID")
 			}
+			// a whole list on the wire: this GUID as the type of the list and as the owner of its second and third entry, the previous
+			// case's GUID as the owner of the first - every one comes back as written
+			{
+				other := prevGUIDBytes
+				if other == nil {
+					other = make([]byte, 16)
+				}
+				og := util.BytesToGUID(other)
+				lst := &signature.SignatureList{SignatureType: signature.CERT_SHA256_GUID, ListSize: 28 + 3*48, Size: 48, SignatureHeader: []byte{},
+					Signatures: []signature.SignatureData{{Owner: *og, Data: prbytes("e1", 32)}, {Owner: *g, Data: prbytes("e2", 32)}, {Owner: *g, Data: prbytes("e3", 32)}}}
+				enc := lst.Bytes()
+				if len(enc) != 28+3*48 || !bytes.Equal(enc[28+48:28+48+16], w) || !bytes.Equal(enc[28+96:28+96+16], w) {
+					fail("owner GUIDs of a three-entry list are not laid out as Data1..3 little-endian ++ Data4")
+				}
+				if dl, err := signature.ReadSignatureList(bytes.NewReader(enc)); err != nil || len(dl.Signatures) != 3 || dl.Signatures[0].Owner != *og || dl.Signatures[1].Owner != *g || dl.Signatures[2].Owner != *g {
+					fail("owners of a decoded three-entry list differ from the owners that were encoded (%v)", err)
+				}
+			}
+			prevGUIDBytes = append([]byte{}, b...)
 		case "str":
 			var rs []rune
 			for _, v := range list(sc, "cps") {
